@@ -62,12 +62,13 @@ def ob_a(h: str) -> bool:
 
 
 # ------------------------------------------------------------------ C18.a2 import rule, stubbed kern parse, symbolic text
-SCRIPT = {'raise': False, 'token': None}
+SCRIPT = {'raise': False, 'token': None, 'calls': 0}
 _orig_import_token = ksi.KernSpineImporter.import_token
 
 
 def _stub_import_token(self, encoding):
     """StubKernParse: any outcome for any text (over-approximates the parser)."""
+    SCRIPT['calls'] += 1
     if SCRIPT['raise']:
         raise Exception('stub: parse error')
     return SCRIPT['token']
@@ -84,7 +85,7 @@ def ob_a2(kind: int, cat: int, fails: bool, text: str) -> bool:
     header = KINDS[k]
     own = TABLE[header][1] if header in TABLE else 'OTHER'
     parsed = tk.SimpleToken('PARSED:' + text, CATS[ci])
-    SCRIPT['raise'], SCRIPT['token'] = bool(fails), parsed
+    SCRIPT['raise'], SCRIPT['token'], SCRIPT['calls'] = bool(fails), parsed, 0
     ksi.KernSpineImporter.import_token = _stub_import_token
     try:
         imp = kp.createImporter(header)
@@ -94,6 +95,7 @@ def ob_a2(kind: int, cat: int, fails: bool, text: str) -> bool:
             check(False, lambda: f'{header}: import_token({concrete(text)!r}) raised {type(e).__name__} (parse {"failed" if fails else "gave " + CATS[ci].name})')
     finally:
         ksi.KernSpineImporter.import_token = _orig_import_token
+    assume(SCRIPT['calls'] > 0)          # the importer did not go through the patched parse: stub contract broken, path discarded
     if not fails and CATS[ci].name in SHARED:
         check(got is parsed, lambda: f'{header}: a parsed {CATS[ci].name} token was not kept (got {type(got).__name__} {concrete(got.encoding)!r} {got.category.name})')
     elif not fails and CATS[ci].name == own and got is parsed:
@@ -334,7 +336,7 @@ OBLIGATIONS = [
        shard_of=lambda kind, cat, fails, text: kind, shards={'quick': 7, 'thorough': 7}, budget_s={'quick': 170, 'thorough': 1200},
        witnesses=[{'kind': 0, 'cat': 22, 'fails': False, 'text': '=1'}, {'kind': 4, 'cat': 0, 'fails': True, 'text': 'C maj'}], min_confirmed=250,
        symbolic='cell text (arbitrary string), parse-fails flag', enumerated='importer kind, parsed category index (all 37)',
-       stubs=['StubKernParse: KernSpineImporter.import_token replaced by "raise, or return a token of the selected category" (over-approximates the parser)'],
+       stub_optional=True, stubs=['StubKernParse: KernSpineImporter.import_token replaced by "raise, or return a token of the selected category" (over-approximates the parser)'],
        bounds={'quick': 'text 1..5 chars', 'thorough': 'text 1..8 chars'}),
     Ob(id='C18.b', fn=ob_b, title='real parser: corpus tokens under every spine type vs under **kern',
        shard_of=lambda k, kind: k, shards={'quick': 8, 'thorough': 8}, budget_s={'quick': 150, 'thorough': 900},
